@@ -163,3 +163,25 @@ prop("C13", shards=16,
      level_text="Model-based sampling of edit histories; the state-registry clause is enumerated completely.",
      level_note="Trusted: the model in the test, go-mc's block table for names/ids (the property is about go-mc's use of it), ref/nbt "
                 "for block-entity payloads. Light arrays are not part of the network clause (the statement omits them).")
+
+prop("C08", shards=16, fuzz=[("FuzzC08", 180)], timeout=(1200, 7200),
+     technique="rapid-generated valid encodings (reference writers) with exhaustive truncation and enumerated hostile length prefixes per decoder; generated command graphs and command lines; native go fuzzing in the thorough tier",
+     rule="A registry of decoders, each fed from a generator of VALID encodings built with the harness' reference writers (ref/wire, "
+          "ref/frame, ref/pal, ref/nbt — not go-mc's): every packet field type and combinator of C06, Packet.UnPack in both modes, "
+          "BitStorage.ReadFrom+Fix, block/biome PaletteContainer, Section, Chunk.PutData, Chunk.ReadFrom (incl. height maps with a "
+          "wrong number of longs), BlockEntity, chat.Message (NBT), chat.JsonMessage, json.Unmarshal into chat.Message (+ String/"
+          "ClearString), chat.Type, registry.Registry[RawMessage|DamageType|Dimension|ChatType].ReadFrom, ReadTagsFrom; each decoder "
+          "object fresh or previously used. Inputs per valid encoding: itself; truncation at EVERY offset (encodings > 1500 bytes: "
+          "head, tail, +-3 around each length prefix, every 37th offset); each of the first 12 length/count prefixes replaced by "
+          "{-1, MinInt, remaining+1, 2^20} and, where no 4-byte length is read downstream, {0, n+1, n-1}; generated bit flips and raw "
+          "bytes (skipped when they create three continuation bytes in a row). Oracle: no panic, returns (60 s watchdog per "
+          "encoding), the valid encoding decodes, and a planted negative or beyond-input length yields an error. C08Command: "
+          "generated literal/argument graphs (StringParser 0/1/2) x command lines over {a, b, space, tab, quote, backslash, e-acute}: "
+          "Execute never panics nor spins. Non-trivial: input differs from the valid encoding / graph has a root. Distinct: "
+          "hash(decoder, input).",
+     level_text="Sampled valid encodings with exhaustive inner enumeration of truncations and hostile prefixes; coverage-guided "
+                "fuzzing of the VarInt-only decoders in the thorough tier.",
+     level_note="Trusted: the reference writers. Planted positive lengths <= 2^20 and the continuation-run exclusion are bounds of the "
+                "search (several decoders allocate what a prefix says; allocation size is not in the statement). Size-changing "
+                "plants inside the length-delimited section data of a whole chunk packet are made through PutData/Section instead. "
+                "The bot's packet dispatch table (indexed by a peer-chosen id) is outside the decoders the statement lists.")
